@@ -77,7 +77,7 @@ def run_job(job):
             eng.explore(fn, stop_on_cex=True, prefix=job.get("prefix"), frontier_depth=job.get("frontier_depth"))
         except Unsupported as e:
             res["status"] = "inconclusive"
-            res["error"] = f"unsupported: {str(e)[:300]}"
+            res["error"] = "unsupported: " + " ".join(str(e).split())[:300]
         except Budget as e:
             res["status"] = "inconclusive"
             res["error"] = f"budget: {e}"
